@@ -77,6 +77,7 @@ struct Args {
     only: Option<String>,
     list: bool,
     known_file: Option<PathBuf>,
+    prop: Option<String>,
 }
 
 fn parse_args() -> Args {
@@ -93,6 +94,7 @@ fn parse_args() -> Args {
         only: None,
         list: false,
         known_file: None,
+        prop: None,
     };
     let v: Vec<String> = std::env::args().skip(1).collect();
     let mut i = 0;
@@ -138,6 +140,10 @@ fn parse_args() -> Args {
             "--list" => a.list = true,
             "--known-file" => {
                 a.known_file = Some(PathBuf::from(&v[i + 1]));
+                i += 1;
+            }
+            "--prop" => {
+                a.prop = Some(v[i + 1].clone());
                 i += 1;
             }
             other => rt::machinery_error(&format!("unknown argument {other}")),
@@ -201,6 +207,10 @@ fn tier_budget(tier: &str) -> f64 {
 /// Entry point of every E1 harness binary.
 pub fn main(harness: &str, property: &str, cases: Vec<Case>) -> ! {
     let args = parse_args();
+    // a harness that serves a second property with a subset of its cases is started with
+    // `--prop <id> --only <substring>`
+    let property_owned = args.prop.clone().unwrap_or_else(|| property.to_string());
+    let property = property_owned.as_str();
     if args.list {
         for (i, c) in cases.iter().enumerate() {
             println!("{i}\t{}", c.name);
@@ -316,6 +326,15 @@ fn replay_main(harness: &str, path: &Path, cases: &[Case]) -> i32 {
             t.step, t.thread, t.op, t.loc, t.old, t.new, t.ord
         );
     }
+    {
+        let free = r.points.iter().filter(|p| p.alt_pre == 0 && p.alt_stale == 0).count();
+        println!("choice points: {} (of which free: {})", r.points.len(), free);
+        if std::env::var("IXMC_SHOW_POINTS").is_ok() {
+            for (i, p) in r.points.iter().enumerate() {
+                println!("  point {i}: kind {:?} n {} cost(pre {}, stale {}) chosen {}", p.kind, p.n, p.alt_pre, p.alt_stale, r.choices.get(i).copied().unwrap_or(0));
+            }
+        }
+    }
     let digest = {
         let mut h: u64 = 0;
         for t in &r.trace {
@@ -401,6 +420,9 @@ fn parent_main(harness: &str, property: &str, args: &Args, cases: &[Case]) -> i3
             cmd.arg("--budget").arg(budget.to_string());
             if let Some(kf) = &args.known_file {
                 cmd.arg("--known-file").arg(kf);
+            }
+            if let Some(p) = &args.prop {
+                cmd.arg("--prop").arg(p);
             }
             let ne = &agg[&case].ne;
             if !ne.is_empty() {
